@@ -53,6 +53,7 @@ type funcVC struct {
 	nInl   int
 	retConds []string
 	paramVars map[string]tvar
+	coveredSites map[ssa.Instruction]bool
 	entry  *state
 	assumed map[string]bool // assumptions used (external contracts, opaque calls)
 	nPanicSites map[string]int
